@@ -298,6 +298,10 @@ func checkC18(c *Check) {
 		key := p.FuncKey(fn) + ":parser"
 		recv, name := vParam(fn, 0), vParam(fn, 1)
 		src := func(x ssa.Value) bool {
+			// Param's own definition, c.params[name], read directly (a helper on the Params type inlined)
+			if lk, isL := strip(x).(*ssa.Lookup); isL && !lk.CommaOk && vField(recv, "params")(lk.X) && name(lk.Index) && strings.HasPrefix(t.meth, "Param") {
+				return true
+			}
 			cl := asCall(x)
 			if cl == nil {
 				return false
